@@ -748,10 +748,9 @@ func (x *Exec) eqSpec(a, b TV) *smt.Term {
 		b = TV{x.zeroValue(a.T), a.T}
 	}
 	// interface compared with nil: type word is zero
-	if as, ok := a.V.(*Struct); ok {
+	if _, ok := a.V.(*Struct); ok {
 		if _, isIface := a.T.Underlying().(*types.Interface); isIface {
-			bs := b.V.(*Struct)
-			return x.B.And(x.B.Eq(as.Fields[0].(*smt.Term), bs.Fields[0].(*smt.Term)), x.B.Eq(x.scalar(as.Fields[1], nil), x.scalar(bs.Fields[1], nil)))
+			return x.ifaceEq(a.V, b.V)
 		}
 	}
 	at, aok := a.V.(*smt.Term)
